@@ -13,6 +13,7 @@ import (
 	"fmt"
 	"math/rand/v2"
 	"os"
+	"regexp"
 	"runtime"
 	"runtime/debug"
 	"sort"
@@ -39,24 +40,24 @@ type Case struct {
 	T       *testing.T
 	Verbose bool
 
-	NT      bool              // non-trivial by the property's rule
-	Key     string            // canonical description hashed for distinctness
-	Viol    []Violation       // violations found
-	Rules   map[string]int    // rule id -> times its precondition was met and it was checked
-	Events  map[string]int    // observed message/event kinds
-	Inter   string            // interleaving fingerprint (hash of arrival order), if any
-	Sample  any               // the case written out (kept for the first few)
-	Extra   map[string]float64 // summable measured counters
-	Max     map[string]float64 // max-aggregated measured values
-	Trace   []string          // verbose trace (only kept when Verbose or on violation)
-	Inconcl string            // non-empty: case was inconclusive for this reason
-	Raced   bool              // the race detector reported a race while this case's bubble ran
-	Poisoned bool             // the bubble ended in a deadlock panic; blocked goroutines remain in the process
+	NT       bool               // non-trivial by the property's rule
+	Key      string             // canonical description hashed for distinctness
+	Viol     []Violation        // violations found
+	Rules    map[string]int     // rule id -> times its precondition was met and it was checked
+	Events   map[string]int     // observed message/event kinds
+	Inter    string             // interleaving fingerprint (hash of arrival order), if any
+	Sample   any                // the case written out (kept for the first few)
+	Extra    map[string]float64 // summable measured counters
+	Max      map[string]float64 // max-aggregated measured values
+	Trace    []string           // verbose trace (only kept when Verbose or on violation)
+	Inconcl  string             // non-empty: case was inconclusive for this reason
+	Raced    bool               // the race detector reported a race while this case's bubble ran
+	Poisoned bool               // the bubble ended in a deadlock panic; blocked goroutines remain in the process
 }
 
-func (c *Case) Hit(rule string)            { c.Rules[rule]++ }
-func (c *Case) Ev(kind string)             { c.Events[kind]++ }
-func (c *Case) Add(k string, v float64)    { c.Extra[k] += v }
+func (c *Case) Hit(rule string)         { c.Rules[rule]++ }
+func (c *Case) Ev(kind string)          { c.Events[kind]++ }
+func (c *Case) Add(k string, v float64) { c.Extra[k] += v }
 func (c *Case) SetMax(k string, v float64) {
 	if v > c.Max[k] {
 		c.Max[k] = v
@@ -139,6 +140,8 @@ type Prop struct {
 }
 
 var registry = map[string]*Prop{}
+
+var nexusFrameRE = regexp.MustCompile(`github\.com/gammazero/nexus/v3/(router|transport|client|wamp)[./]`)
 
 func register(p *Prop) { registry[p.ID] = p }
 
@@ -243,7 +246,36 @@ func runWorker(t *testing.T) {
 			Rng:   rand.New(rand.NewPCG(s1, s2)),
 			Rules: map[string]int{}, Events: map[string]int{}, Extra: map[string]float64{}, Max: map[string]float64{}}
 		t0 := time.Now()
+		// A goroutine that waits for a sync.Mutex inside a bubble is not "durably blocked": the bubble can then
+		// neither become quiescent nor advance its clock, and the case would sit there until the driver's
+		// wall-clock watchdog. A mutex that nexus code has been waiting for for minutes of real time is a
+		// deadlock (its holder never gave it back), so this is decided here: the process is ended with a panic
+		// naming the function, which the driver attributes to this case like any crash.
+		caseDone := make(chan struct{})
+		go func() {
+			for waited := 0; ; waited++ {
+				select {
+				case <-caseDone:
+					return
+				case <-time.After(30 * time.Second):
+				}
+				if waited < 3 || (propID != "C16" && propID != "C17") {
+					// only the client checks: in the router a join may legitimately wait on the realm's close lock for
+					// up to a minute of virtual time (meta session's result retry), which a bubble cannot play out
+					continue
+				}
+				buf := make([]byte, 8<<20)
+				buf = buf[:runtime.Stack(buf, true)]
+				for _, g := range strings.Split(string(buf), "\n\n") {
+					head, _, _ := strings.Cut(g, "\n")
+					if strings.Contains(head, "synctest bubble") && strings.Contains(head, "sync.Mutex.Lock") && strings.Contains(head, "minutes") && nexusFrameRE.MatchString(g) {
+						panic("verif: goroutine has been waiting for a mutex for minutes (deadlock): " + leakSig(g))
+					}
+				}
+			}
+		}()
 		func() {
+			defer close(caseDone)
 			defer func() {
 				if r := recover(); r != nil {
 					c.Fail("RB1", "harness-goroutine-panic", "panic in case goroutine: %v\n%s", r, debug.Stack())
@@ -282,5 +314,5 @@ func runWorker(t *testing.T) {
 	}
 }
 
-func synctestWait()                 { synctest.Wait() }
+func synctestWait()                { synctest.Wait() }
 func sleepVirtual(d time.Duration) { time.Sleep(d); synctest.Wait() }
